@@ -24,7 +24,8 @@ KINDS = ['set with raising watcher', 'update rejected value', 'trigger with rais
          'constructor rejected value', 'update unknown key', 'set with raising queued watcher', 'update with raising watcher',
          'trigger unknown name', 'update rejected value before an Event key', 'trigger a,e with raising watcher',
          'update a,e with raising watcher', 'trigger of a linked parameter with raising watcher',
-         'source update rejected by the linked parameter', 'source update with raising watcher on the linked parameter']
+         'source update rejected by the linked parameter', 'source update with raising watcher on the linked parameter',
+         'set Event with raising watcher', 'batch{b=2; trigger of an unknown name}', 'queued watcher assigns b then raises']
 
 
 class Boom(Exception):
@@ -60,6 +61,9 @@ def _build(vals, pr_r, qd_r):
         trace.append(('R', tuple((e.name, e.old, e.new, e.type) for e in events), (p.a, p.b, p.e)))
         if arm['on']:
             arm['on'] = False
+            if arm.get('assign'):
+                arm['assign'] = False
+                p.b = 3                 # an assignment made by the (queued) callback before it fails
             raise Boom()
 
     def obs(*events):
@@ -67,7 +71,7 @@ def _build(vals, pr_r, qd_r):
 
     def obs2(*events):
         trace.append(('S', tuple((e.name, e.old, e.new, e.type) for e in events), (p.a, p.b, p.e)))
-    p.param.watch(raiser, ['a', 'l'], onlychanged=False, precedence=pr_r, queued=qd_r)
+    p.param.watch(raiser, ['a', 'l', 'e'], onlychanged=False, precedence=pr_r, queued=qd_r)
     p.param.watch(obs, ['a', 'b', 'e', 'l'], onlychanged=True, precedence=1)
     p.param.watch(obs2, ['a'], onlychanged=False, precedence=1)
     return p, trace, arm
@@ -138,6 +142,17 @@ def _fault(p, arm, kind, v, pos):
         elif kind == 18:
             arm['on'] = True
             arm['src'].v = 4
+        elif kind == 19:
+            arm['on'] = True
+            p.e = True
+        elif kind == 20:
+            with batch_call_watchers(p):
+                p.b = 2
+                p.param.trigger('a', 'nope')
+        elif kind == 21:
+            arm['on'] = True
+            arm['assign'] = True
+            p.a = v
         return False, None
     except (Boom, ValueError, TypeError, KeyError) as ex:
         return True, type(ex).__name__
@@ -177,7 +192,7 @@ def prog(k1: int, k2: int, in_batch: bool, pr_r: int, v1: int, v2: int, pos1: bo
     pos1, pos2 = pickbool(pos1), pickbool(pos2)
     k1 = pick(k1, 0, len(KINDS) - 1)
     k2 = pick(k2, -1, len(KINDS) - 1)          # -1: no second fault
-    qd_r = (k1 == 10 or k2 == 10)
+    qd_r = (k1 in (10, 21) or k2 in (10, 21))
     with untraced():
         p, trace, arm = _build({'a': 0, 'b': 1}, pr_r, qd_r)
     info = {'kind1': KINDS[k1], 'kind2': KINDS[k2] if k2 >= 0 else None, 'in_batch': in_batch, 'pos1': pos1}
@@ -189,7 +204,7 @@ def prog(k1: int, k2: int, in_batch: bool, pr_r: int, v1: int, v2: int, pos1: bo
     n_before = len(trace)
     raised, exc = _fault(p, arm, k1, v1, pos1)
     cover('C05.kind.%s' % KINDS[k1])
-    if k1 not in (0, 2, 3, 10, 11, 14, 15, 16, 18) or not in_batch:
+    if k1 not in (0, 2, 3, 10, 11, 14, 15, 16, 18, 19, 21) or not in_batch:
         # inside a surrounding batch the watcher-raising kinds only fail at the flush
         check('C05.fault_raised', raised, dict(info, exc=exc))
     if k2 >= 0:
@@ -210,6 +225,10 @@ def prog(k1: int, k2: int, in_batch: bool, pr_r: int, v1: int, v2: int, pos1: bo
         if pos1:
             got = any(t[0] == 'S' and any(ev[0] == 'a' and ev[2] is v1 for ev in t[1]) for t in trace[n_before:])
             check('C05.announced_by_raise', got, dict(info, ntrace=len(trace) - n_before))
+    if k1 == 20 and k2 < 0:
+        # b = 2 was applied (and queued) before the failing trigger: it is announced once the batch has been left
+        got = any(t[0] == 'O' and any(ev[0] == 'b' and ev[2] == (7 if in_batch else 2) for ev in t[1]) for t in trace[n_before:])
+        check('C05.announced_by_raise', got, dict(info, ntrace=len(trace) - n_before))
     # constant flags restored
     check('C05.constant_flags', p.param.c.constant is True and P.param.c.constant is True, info)
     check('C05.event_reset', p.e is False, info)
@@ -248,7 +267,7 @@ def shards(tier):
     for k1 in range(len(KINDS)):
         for ib in (False, True):
             if q:       # no second fault, or one of three kinds (fixed value, fixed key order)
-                for k2 in ((-1, 1, 2, 4) if k1 < 16 else (-1, 2)):
+                for k2 in ((-1, 1, 2, 4) if k1 < 16 else ((-1, 2) if k1 < 19 else (-1,))):
                     out.append(dict(name='k%d_%d_b%d' % (k1, k2, ib), module='harness.c05', fn='prog',
                                     consts=dict(k1=k1, k2=k2, in_batch=ib, v2=1, pos2=True), budget_s=60))
             else:
